@@ -321,7 +321,10 @@ def run_case(case: dict) -> core.CaseResult:
         oracles = case.get('oracles', ['seq', 'pos'])
         check_from = case.get('check_from', 0)
         for t in exp:               # reads on the initial state (also when it is a replayed prefix)
-            store.get_position(t)
+            try:
+                store.get_position(t)
+            except Exception:  # noqa: judged by the oracles below, not here
+                break
         if check_from == 0:
             if 'seq' in oracles:
                 check_seq(store, exp, [], res, 'initial state')
@@ -341,8 +344,11 @@ def run_case(case: dict) -> core.CaseResult:
                 # replayed prefix: already judged when it was the last step, but the reads happen again - a store that
                 # caches what it was asked (positions, block starts) must see the same sequence of calls as in a real history
                 for t in exp:
-                    store.get_position(t)
-                    store.get_index(t)
+                    try:
+                        store.get_position(t)
+                        store.get_index(t)
+                    except Exception:  # noqa
+                        break
             if step >= check_from:
                 res.transitions += 1
                 where = f'after step {step} {op}'
